@@ -2382,6 +2382,10 @@ class C36(Prop):
         if msg is None or c['kind'] != 'impute':
             return msg
         for cls in ('struct-union', 'clash-refilled'):
+            if cls == 'struct-union' and '(hl.literal rejects the pair later' in msg:
+                # the open struct-union finding is about a union type hl.literal ACCEPTS although the elements lack fields; a union that
+                # hl.literal itself refuses is a different failure (seed C36-15 dropped fields from the union and was masked by the class)
+                continue
             if self.holds_with_fix(c, cls):
                 self.stats['known'][cls] = self.stats['known'].get(cls, 0) + 1
                 return f'[class={cls}] ' + msg
